@@ -157,7 +157,7 @@ class MapToMolecule(Processor):
         # be an integer multiple of the block
         n_fragments = 0
         for fragment in nx.connected_components(restart_graph):
-            frag_nodes = list(fragment)
+            frag_nodes = sorted(fragment, key=lambda node: meta_molecule.nodes[node]["resid"])
             block = self.force_field.blocks[restart_attr[frag_nodes[0]]]
             block_res = make_residue_graph(block, attrs=('resid', 'resname'))
             len_block = len(block_res)
